@@ -219,23 +219,30 @@ def blockCmd (h : Hdr) (convert : Bool) (cmd : Nat) (st : St) : Prog St := do
   check ((slice buf1 h.nwrap (h.nwrap + st.bs)).all (fixOk h.ftype st.shift))
   pure (finishBlock h convert st cs.off buf1)
 
-/-- the `while True:` command loop; `fuel` bounds the number of commands -/
+/-- one iteration of the `while True:` command loop: the next state, or the output at `FN_QUIT` -/
+def step (h : Hdr) (convert : Bool) (st : St) : Prog (St ⊕ List Int) := do
+  let cmd ← uvar FNSIZE
+  if cmd = FN_QUIT then pure (.inr st.out)
+  else if BLOCK_CMDS.contains cmd then do
+    let st' ← blockCmd h convert cmd st
+    pure (.inl st')
+  else if cmd = FN_BLOCKSIZE then do
+    let b ← ulong
+    if b = 0 ∨ b > h.bs0 then failWith (.unsupported "block size 0 or larger than allocated")
+    else pure (.inl { st with bs := b })
+  else if cmd = FN_BITSHIFT then do
+    let b ← uvar BITSHIFTSIZE
+    pure (.inl { st with shift := b })
+  else failWith (.io .badCmd)
+
+/-- the `while True:` command loop; `fuel` bounds the number of commands (every command consumes at
+    least one bit, so the number of bits left, plus one, always suffices: `Lemmas/ShortenFuel`) -/
 def loop (h : Hdr) (convert : Bool) : Nat → St → Prog (List Int)
   | 0, _ => failWith .fuel
   | f + 1, st => do
-    let cmd ← uvar FNSIZE
-    if cmd = FN_QUIT then pure st.out
-    else if BLOCK_CMDS.contains cmd then do
-      let st' ← blockCmd h convert cmd st
-      loop h convert f st'
-    else if cmd = FN_BLOCKSIZE then do
-      let b ← ulong
-      if b = 0 ∨ b > h.bs0 then failWith (.unsupported "block size 0 or larger than allocated")
-      else loop h convert f { st with bs := b }
-    else if cmd = FN_BITSHIFT then do
-      let b ← uvar BITSHIFTSIZE
-      loop h convert f { st with shift := b }
-    else failWith (.io .badCmd)
+    match ← step h convert st with
+    | .inl st' => loop h convert f st'
+    | .inr out => pure out
 
 /-- `for _ in range(nskip): uvar_get(XBITESIZE)` -/
 def skipBytes : Nat → Prog Unit
@@ -269,20 +276,28 @@ def mainProg (version : Nat) (convert : Bool) (fuel : Nat) : Prog (List Int) := 
 def versionOk (v : Int) : Bool :=
   v = 1 || (decide ((MIN_SUPPORTED_VERSION : Int) ≤ v) && decide (v ≤ (MAX_SUPPORTED_VERSION : Int)))
 
-/-- decode over a bit list (L0 reader) -/
-def decodeBits (version : Int) (convert : Bool) (bits : List Bool) : Except Err (List Int) :=
+/-- decode over a bit list (L0 reader) with an explicit bound on the number of commands -/
+def decodeBitsF (fuel : Nat) (version : Int) (convert : Bool) (bits : List Bool) : Except Err (List Int) :=
   if versionOk version then
-    match (mainProg version.toNat convert (bits.length + 1)).run uvarGet bits with
+    match (mainProg version.toNat convert fuel).run uvarGet bits with
     | .error e => .error e
     | .ok (out, _) => .ok out
   else .error (.io .badVersion)
 
-def decodeBitsM (version : Int) (convert : Bool) (bits : List Bool) : Except Err (List Int × Bool) :=
+def decodeBitsFM (fuel : Nat) (version : Int) (convert : Bool) (bits : List Bool) :
+    Except Err (List Int × Bool) :=
   if versionOk version then
-    match (mainProg version.toNat convert (bits.length + 1)).runM uvarGet bits true with
+    match (mainProg version.toNat convert fuel).runM uvarGet bits true with
     | .error e => .error e
     | .ok (out, _, fl) => .ok (out, fl)
   else .error (.io .badVersion)
+
+/-- decode over a bit list (L0 reader); every command takes at least one bit -/
+def decodeBits (version : Int) (convert : Bool) (bits : List Bool) : Except Err (List Int) :=
+  decodeBitsF (bits.length + 1) version convert bits
+
+def decodeBitsM (version : Int) (convert : Bool) (bits : List Bool) : Except Err (List Int × Bool) :=
+  decodeBitsFM (bits.length + 1) version convert bits
 
 /-- `struct.unpack("b", …)` -/
 def sbyte (b : Nat) : Int := if b ≥ 128 then (b : Int) - 256 else b
